@@ -267,10 +267,10 @@ pub fn decode_oracles(out: &mut Out, e: &'static Encoding, f: Func, input: &[u8]
                     Err(m) => out.fail("C11", &lhs, format!("streaming reference panicked (chunk={:?}): {}", chunk, m)),
                     Ok((st, senc, shad)) => {
                         if Some(&st) != o.text.as_ref() {
-                            out.fail("C11", &lhs, format!("text differs from the streaming decoder (chunk={:?}): oneshot={} streaming={}", chunk, short(o.text.as_deref().unwrap_or("")), short(&st)));
+                            out.fail(if c09() { "C09" } else { "C11" }, &lhs, format!("text differs from the streaming decoder (chunk={:?}): oneshot={} streaming={}", chunk, short(o.text.as_deref().unwrap_or("")), short(&st)));
                         }
                         if shad != o.had_errors {
-                            out.fail("C11", &lhs, format!("had_errors={} but the streaming decoder (chunk={:?}) says {}", o.had_errors, chunk, shad));
+                            out.fail(if c09() { "C09" } else { "C11" }, &lhs, format!("had_errors={} but the streaming decoder (chunk={:?}) says {}", o.had_errors, chunk, shad));
                         }
                         if f == Func::Decode && senc != o.enc {
                             out.fail("C11", &lhs, format!("encoding used = {} but the streaming decoder (chunk={:?}) ends as {}", o.enc.name(), chunk, senc.name()));
@@ -326,7 +326,18 @@ fn with_exact<T>(input: &[u8], off: usize, f: impl FnOnce(&[u8]) -> T) -> T {
 }
 
 /// run the four functions on one input; `emit`: write operation lines for the model
+/// C09 mode: the one-shot with-replacement functions are "replacement modes" too - their text and
+/// had_errors flag must equal the manual procedure over the streaming decoder; a thinned version of the C11
+/// generator runs under C09 and reports those two oracles under that id
+pub static C09_MODE: std::sync::atomic::AtomicBool = std::sync::atomic::AtomicBool::new(false);
+fn c09() -> bool {
+    C09_MODE.load(std::sync::atomic::Ordering::Relaxed)
+}
+
 pub fn check_input(out: &mut Out, e: &'static Encoding, input: &[u8], emit_mask: u8, off: usize) {
+    if c09() && off % 5 != 0 {
+        return;
+    }
     with_exact(input, off % 16, |inp| {
         for (i, f) in FUNCS.iter().enumerate() {
             trace_op(&op_lhs(e, *f, inp));
@@ -638,6 +649,14 @@ fn gen_decode(out: &mut Out, rng: &mut Rng, thorough: bool) {
                 }
             }
         }
+        // every short sequence of UTF-8 length classes as the end of the input (validator hand-over
+        // conditions decide borrow / None / had_errors): for the encodings that run a validator over it
+        if e == encoding_rs::UTF_8 || e == encoding_rs::WINDOWS_1252 || e == encoding_rs::ISO_2022_JP {
+            for v in utf8_tail_shapes() {
+                counter += 1;
+                check_input(out, e, &v, emit_mask_for(v.len(), counter, thorough), counter);
+            }
+        }
         // BOMs alone and BOM + one unit
         for pre in BOMS {
             counter += 1;
@@ -756,10 +775,16 @@ fn gen_encode(out: &mut Out, rng: &mut Rng, thorough: bool) {
 }
 
 pub fn generate(prop: &str, out: &mut Out, thorough: bool, seed: u64) -> bool {
-    if prop != "C11" {
+    if prop != "C11" && prop != "C09" {
         return false;
     }
     let mut rng = Rng::new(seed ^ 0xC11_0000);
+    if prop == "C09" {
+        C09_MODE.store(true, std::sync::atomic::Ordering::Relaxed);
+        gen_decode(out, &mut rng, thorough);
+        C09_MODE.store(false, std::sync::atomic::Ordering::Relaxed);
+        return true;
+    }
     gen_decode(out, &mut rng, thorough);
     gen_encode(out, &mut rng, thorough);
     true
